@@ -776,6 +776,217 @@ fn gen_interp_case(rng: &mut Rng, i: usize) -> Synth {
     sp
 }
 
+// ---- loop-carrying data opcodes (Model/InterpLoops.lean)
+
+const OP_SLOOP: u8 = 0x17;
+const OP_ADD: u8 = 0x60;
+
+/// value around the interesting point indices of a zone with `n` points
+fn point_ix(rng: &mut Rng, n: i32) -> i32 {
+    match rng.below(10) {
+        0 => n,
+        1 => n - 1,
+        2 => n + 1,
+        3 => -1,
+        4 => 100,
+        _ => rng.range(0, (n.max(1) - 1) as i64) as i32,
+    }
+}
+
+/// pushes `32767 * 2^k` (k doublings by DUP ADD): loop counts beyond 16 bits
+fn push_big(out: &mut Vec<u8>, doublings: usize, plus: i32) {
+    push_w(out, 32767);
+    for _ in 0..doublings {
+        out.push(OP_DUP);
+        out.push(OP_ADD);
+    }
+    if plus != 0 {
+        push_val(out, plus);
+        out.push(OP_ADD);
+    }
+}
+
+fn gen_loop_block(rng: &mut Rng, out: &mut Vec<u8>, ntok: usize, zone_pts: i32, n_cvt: i32) {
+    for _ in 0..ntok {
+        match rng.below(100) {
+            0..=21 => push_val(out, point_ix(rng, zone_pts)),
+            22..=31 => {
+                // SLOOP with small / zero / negative / beyond-16-bit counts
+                match rng.below(12) {
+                    0 => push_val(out, -1),
+                    1 => push_val(out, 0),
+                    2 => push_big(out, 1, rng.range(0, 3) as i32), // 65534 .. 65537
+                    3 => push_w(out, 300),
+                    _ => push_val(out, rng.range(1, 5) as i32),
+                }
+                out.push(OP_SLOOP);
+            }
+            32..=39 => {
+                push_val(out, *rng.pick(&[0, 1, 0, 1, 0, 2, -1]));
+                out.push(*rng.pick(&[0x13u8, 0x14, 0x15, 0x16, 0x16]));
+            }
+            40..=46 => {
+                push_val(out, point_ix(rng, zone_pts));
+                out.push(*rng.pick(&[0x10u8, 0x11, 0x12]));
+            }
+            47..=84 => {
+                let op = *rng.pick(&[
+                    0x32u8, 0x33, 0x38, 0x39, 0x3C, 0x80, 0x81, 0x82, 0x34, 0x35, 0x36, 0x37, 0x5D, 0x71, 0x72, 0x73, 0x74, 0x75, 0x25, 0x26, 0x30,
+                    0x31, 0x32, 0x39, 0x3C, 0x80,
+                ]);
+                if rng.chance(3, 4) {
+                    // plausible operands
+                    match op {
+                        0x32 | 0x33 | 0x39 | 0x3C | 0x80 => {
+                            for _ in 0..rng.below(4) {
+                                push_val(out, point_ix(rng, zone_pts));
+                            }
+                        }
+                        0x38 => {
+                            for _ in 0..rng.below(3) {
+                                push_val(out, point_ix(rng, zone_pts));
+                            }
+                            push_val(out, rng.range(-70, 70) as i32);
+                        }
+                        0x81 | 0x82 => {
+                            let lo = point_ix(rng, zone_pts);
+                            push_val(out, lo);
+                            push_val(out, if rng.chance(1, 2) { lo + rng.range(-1, 3) as i32 } else { point_ix(rng, zone_pts) });
+                        }
+                        0x34 | 0x35 => push_val(out, *rng.pick(&[0, 0, 1, 2, -1])),
+                        0x36 | 0x37 => push_val(out, *rng.pick(&[0, 1, 2, -1])),
+                        0x5D | 0x71 | 0x72 | 0x73 | 0x74 | 0x75 => {
+                            let n = rng.below(4) as i32;
+                            for _ in 0..n {
+                                // exception byte: ppem 16 = 7 + 9 (DELTA*1) is the one that applies
+                                push_val(out, *rng.pick(&[0x70, 0x7F, 0x78, 0x00, 0x60, 0xF0, 0x170]) + rng.below(16) as i32 * 0);
+                                push_val(out, if op >= 0x73 { point_ix(rng, n_cvt) } else { point_ix(rng, zone_pts) });
+                            }
+                            push_val(out, match rng.below(6) {
+                                0 => n + 1,
+                                1 => -1,
+                                2 => 200,
+                                _ => n,
+                            });
+                        }
+                        0x25 | 0x26 => {
+                            for _ in 0..rng.below(4) {
+                                push_val(out, small(rng));
+                            }
+                            push_val(out, rng.range(-1, 5) as i32);
+                        }
+                        _ => {}
+                    }
+                }
+                out.push(op);
+            }
+            _ => out.push(*rng.pick(&DATA_OPS)),
+        }
+    }
+}
+
+/// programs over the loop-carrying data opcodes, in fpgm / prep (not pedantic, empty glyph zone, twilight zone of
+/// `max_twilight` points) and in the glyph program (pedantic, glyph zone of n_pts + 4 points)
+fn gen_loop_case(rng: &mut Rng, i: usize) -> Synth {
+    let mut sp = Synth {
+        max_stack: *rng.pick(&[8u16, 16, 64]),
+        n_funcs: 0,
+        n_idefs: 0,
+        n_cvt: *rng.pick(&[0u16, 4, 8]),
+        n_pts: *rng.pick(&[3u16, 5, 9]),
+        max_storage: 0,
+        max_twilight: *rng.pick(&[0u16, 1, 4, 6]),
+        fpgm: vec![],
+        prep: vec![],
+        glyph: None,
+    };
+    let keys: Vec<i32> = vec![0, 1, 2, 3];
+    let twi = sp.max_twilight as i32 + 4;
+    let gp = sp.n_pts as i32 + 4;
+    let cvt = sp.n_cvt as i32;
+    match i % 8 {
+        0 => {
+            // SLOOP far beyond 16 bits, then a point loop that keeps popping zeros in non-pedantic mode: bounded only
+            // by the clamp to 0xFFFF
+            let mut p = vec![];
+            push_val(&mut p, 0);
+            p.push(0x16); // SZPS 0: twilight
+            let reps = 3 + rng.below(4);
+            for _ in 0..reps {
+                push_big(&mut p, 16, 0); // 32767 * 65536
+                if rng.chance(1, 4) {
+                    // an exception count far beyond the stack depth (cut down to depth / 2 before the loop)
+                    p.push(*rng.pick(&[0x5Du8, 0x71, 0x72, 0x73, 0x74, 0x75]));
+                } else {
+                    p.push(OP_SLOOP);
+                    p.push(*rng.pick(&[0x32u8, 0x33, 0x38, 0x3C, 0x80, 0x39]));
+                }
+            }
+            sp.max_stack = 16;
+            sp.prep = p;
+        }
+        1 | 2 => {
+            let mut g = vec![];
+            let n = 1 + rng.below(10) as usize;
+            gen_loop_block(rng, &mut g, n, gp, cvt);
+            sp.glyph = Some(g);
+        }
+        3 => {
+            let mut p = vec![];
+            let n = 1 + rng.below(10) as usize;
+            gen_loop_block(rng, &mut p, n, twi, cvt);
+            sp.prep = p;
+        }
+        4 => {
+            let mut f = vec![];
+            let n = 1 + rng.below(8) as usize;
+            gen_loop_block(rng, &mut f, n, twi, cvt);
+            sp.fpgm = f;
+            let mut p = vec![];
+            let n = rng.below(6) as usize;
+            gen_loop_block(rng, &mut p, n, twi, cvt);
+            sp.prep = p;
+        }
+        5 => {
+            // mixed with control flow
+            let mut g = vec![];
+            gen_loop_block(rng, &mut g, 3, gp, cvt);
+            gen_block(rng, &mut g, 3, 0, &keys, false);
+            gen_loop_block(rng, &mut g, 3, gp, cvt);
+            sp.glyph = Some(g);
+        }
+        6 => {
+            // every point of the glyph zone pushed, then one loop opcode with SLOOP = count - 1 / count / count + 1
+            let mut g = vec![];
+            let cnt = rng.range(1, gp as i64 + 2) as i32;
+            for k in 0..cnt {
+                push_val(&mut g, k);
+            }
+            push_val(&mut g, cnt + rng.range(-1, 1) as i32);
+            g.push(OP_SLOOP);
+            let op = *rng.pick(&[0x32u8, 0x33, 0x38, 0x39, 0x3C, 0x80]);
+            if op == 0x38 {
+                push_val(&mut g, 32);
+            }
+            g.push(op);
+            g.push(OP_DEPTH);
+            sp.max_stack = 32;
+            sp.glyph = Some(g);
+        }
+        _ => {
+            let mut p = vec![];
+            let n = rng.below(8) as usize;
+            gen_loop_block(rng, &mut p, n, twi, cvt);
+            sp.prep = p;
+            let mut g = vec![];
+            let n = 1 + rng.below(8) as usize;
+            gen_loop_block(rng, &mut g, n, gp, cvt);
+            sp.glyph = Some(g);
+        }
+    }
+    sp
+}
+
 fn synth_line(cmd: &str, sp: &Synth) -> String {
     format!(
         "{cmd} {} {} {} {} {} {} {} {} {} {}",
@@ -816,9 +1027,12 @@ fn model_req(sp: &Synth) -> String {
     let lim_g = ((sp.n_pts.max(3) as u64 + 4) * 10).max(50) + (sp.n_cvt as u64 / 10).max(50);
     let cap = (sp.max_stack as u64 + 32).min(65535);
     format!(
-        "interp {lim_fc} {lim_g} {cap} {} {} {} {} {}",
+        "interp {lim_fc} {lim_g} {cap} {} {} {} {} {} {} {} {}",
         sp.n_funcs,
         sp.n_idefs,
+        sp.n_pts.max(3),
+        sp.max_twilight.saturating_add(4),
+        sp.n_cvt,
         hex(&sp.fpgm),
         hex(&sp.prep),
         sp.glyph.as_ref().map(|g| hex(g)).unwrap_or_else(|| "none".into())
@@ -1939,7 +2153,11 @@ fn run(cfg: &Config, s: &mut Session) {
 
     // ---- 1. interpreter correspondence
     let n_interp = if thorough { 40000 } else { 4000 };
-    let cases: Vec<Synth> = (0..n_interp).map(|i| gen_interp_case(&mut rng, i)).collect();
+    let n_loops = if thorough { 30000 } else { 3000 };
+    let mut cases: Vec<Synth> = (0..n_interp).map(|i| gen_interp_case(&mut rng, i)).collect();
+    for i in 0..n_loops {
+        cases.push(gen_loop_case(&mut rng, i));
+    }
     let jobs: Vec<String> = cases.iter().map(|sp| synth_line("interp", sp)).collect();
     let res = run_jobs(&jobs, cap, nworkers);
     // The model names the cases whose execution leaves the modelled opcode subset (a jump landed inside an
@@ -1959,10 +2177,10 @@ fn run(cfg: &Config, s: &mut Session) {
             r.split(':').take(3).collect::<Vec<_>>().join(":")
         };
         if model_pre.get(i).map(|m| m.contains(":err:Data")).unwrap_or(false) {
-            s.count("interp-outside-subset(not compared)");
+            s.count(if i < n_interp { "interp-outside-subset(not compared)" } else { "interp-loops-outside-subset(not compared)" });
             continue;
         }
-        s.count(&format!("interp:{class}"));
+        s.count(&format!("{}:{class}", if i < n_interp { "interp" } else { "interp-loops" }));
         s.case("interp", model_req(sp), r.clone());
     }
 
@@ -2029,7 +2247,7 @@ fn run(cfg: &Config, s: &mut Session) {
         s.oracle("cff-draw-returns-ok-or-error-value", value, || j.clone(), || r.clone());
         let class = if value && t[0] == t[1] && t[1] == t[2] { t[0].to_string() } else { format!("mixed:{r}") };
         s.count(&format!("cse:{}:{}", c.family, class.split('(').next().unwrap_or("?")));
-        s.case("charstring-e2e", j.clone(), class);
+        s.case("charstring-e2e", charstring::case_line("cse", &charstring::embedded_view(c)), class);
     }
     // fan-out chains: k^10 subroutine activations from ~ 25*k bytes (finding family, see known_findings.d/C02.json)
     let fan_jobs: Vec<(usize, String)> = [2usize, 4, 16]
